@@ -362,8 +362,38 @@ def canon_val(v) -> Any:
     raise TypeError(f"cannot canonicalise {v!r}")
 
 
+def spec_case(case) -> dict:
+    """the first-order reading of a case with flattened collections: w = flatten(e) is a variable over all objects with
+    the extra conjunct contains(e, w).  Cases without "flat" are returned unchanged."""
+    if not case.get("flat") and not case.get("sub"):
+        return case
+    sc = {k: v for k, v in case.items() if k not in ("flat", "sub")}
+    sc["vars"] = dict(case["vars"])
+    sc["doms"] = dict(case["doms"])
+    pids = [o["id"] for o in case["objs"] if o["cls"] == "P"]
+    c = case["cond"]
+    used = set(cond_vars(c) if c is not None else []) | set(v for v in (opnd_var(s) for s in case["sels"]) if v)
+    for name, e in (case.get("flat") or {}).items():
+        if name not in used:
+            continue        # (a shrunk case) the flattened collection no longer occurs in the query
+        sc["vars"][name] = "P"
+        sc["doms"][name] = list(pids)
+        member = ["contains", e, ["var", name]]
+        c = member if c is None else ["and", member, c]
+    # z = an(entity(z0, c_z)): a variable over z0's domain with the extra conjunct c_z
+    for name, sub in (case.get("sub") or {}).items():
+        if name not in used:
+            continue
+        sc["vars"][name] = sub["type"]
+        sc["doms"][name] = list(sub["dom"])
+        if sub["cond"] is not None:
+            c = sub["cond"] if c is None else ["and", sub["cond"], c]
+    sc["cond"] = c
+    return sc
+
+
 def build_query(case, objs, quantifier="an", **qkw):
-    from krrood.entity_query_language.entity import let, entity, set_of, and_, or_, not_, contains, exists, for_all
+    from krrood.entity_query_language.entity import let, entity, set_of, and_, or_, not_, contains, exists, for_all, flatten
     from krrood.entity_query_language.quantify_entity import an, the
 
     types = {"P": P, "T": T, "int": int}
@@ -386,6 +416,10 @@ def build_query(case, objs, quantifier="an", **qkw):
             return opnd(e[1]).geta()
         return getattr(opnd(e[1]), e[2])
 
+    # flattened collections: w = flatten(x.kids) is used like a variable that ranges over the elements of x.kids
+    for name, e in (case.get("flat") or {}).items():
+        vs[name] = flatten(opnd(e))
+
     def cond(c):
         k = c[0]
         if k == "cmp":
@@ -404,6 +438,13 @@ def build_query(case, objs, quantifier="an", **qkw):
         if k == "forall":
             return for_all(vs[c[1]], cond(c[2]))
         raise ValueError(k)
+
+    # nested sub-queries: z = an(entity(let(P, dom), c_z)) is used like a variable that ranges over the sub-query's answers
+    for name, sub in (case.get("sub") or {}).items():
+        vs[name] = let(types[sub["type"]], [objs[i] if sub["type"] != "int" else i for i in sub["dom"]], name=name)
+    for name, sub in (case.get("sub") or {}).items():
+        inner = vs[name]
+        vs[name] = an(entity(inner, cond(sub["cond"])) if sub["cond"] is not None else entity(inner))
 
     sels = [opnd(s) for s in case["sels"]]
     c = cond(case["cond"]) if case["cond"] is not None else None
@@ -503,8 +544,168 @@ def gen_twin_exists(rng: Rng) -> dict:
     return case
 
 
+def gen_flat_case(rng: Rng) -> dict:
+    """a query over a flattened collection attribute: z = flatten(x.kids) (or flatten(x.child.kids)) used in conditions and
+    selections next to x (and possibly a second variable).  No Coq model of Flatten exists in Eql/Eval.v: these cases are
+    compared implementation vs the first-order Spec of [spec_case] only.  Every flattened collection is non-empty: an empty
+    one makes the flatten variable range over nothing, which is the empty-domain class (finding C01-h, witness
+    corpus/C01/kf_emptyflat.json), not what this stream is about."""
+    n = rng.randint(1, 4)
+    objs = [{"id": i, "cls": "P", "key": i, "a": rng.randint(0, 2), "b": rng.randint(0, 2),
+             "items": [rng.randint(0, 2) for _ in range(rng.randint(0, 2))],
+             "kids": [rng.randint(1, n) for _ in range(rng.choice([1, 1, 2, 2, 3]))], "child": rng.randint(1, n)}
+            for i in range(1, n + 1)]
+    ids = [o["id"] for o in objs]
+    case: Dict[str, Any] = {"objs": objs, "vars": {"x": "P"}, "doms": {"x": rng.sample(ids, rng.randint(1, n))}}
+    if rng.chance(0.4):
+        if rng.chance(0.5):
+            case["vars"]["y"], case["doms"]["y"] = "P", rng.sample(ids, rng.randint(1, n))
+        else:
+            case["vars"]["y"], case["doms"]["y"] = "int", list(dict.fromkeys(rng.randint(0, 2) for _ in range(rng.randint(1, 3))))
+    src = ["attr", ["var", "x"], "kids"] if rng.chance(0.8) else ["attr", ["attr", ["var", "x"], "child"], "kids"]
+    names = list(case["vars"]) + ["z"]
+    typ = dict(case["vars"], z="P")
+
+    def iop(allow_lit=True):
+        if allow_lit and rng.chance(0.3):
+            return ["lit", rng.randint(0, 2)]
+        nm = rng.choice(names)
+        if typ[nm] == "int":
+            return ["var", nm]
+        return ["attr", ["var", nm], rng.choice(["a", "b"])] if rng.chance(0.85) else ["attr", ["attr", ["var", nm], "child"], "a"]
+
+    def atom():
+        r = rng.random()
+        pv = [nm for nm in names if typ[nm] == "P"]
+        if r < 0.15:
+            return ["cmp", rng.choice(["==", "!="]), ["var", rng.choice(pv)], ["var", rng.choice(pv)] if rng.chance(0.6) else ["attr", ["var", rng.choice(pv)], "child"]]
+        if r < 0.25:
+            return ["contains", ["attr", ["var", rng.choice(pv)], "kids"], ["var", rng.choice(pv)]]
+        if r < 0.33:
+            return ["contains", ["attr", ["var", rng.choice(pv)], "items"], iop()]
+        a = ["cmp", rng.choice(list(OPS)), iop(False), iop()]
+        return a
+
+    def cond(d):
+        r = rng.random()
+        if d <= 0 or r < 0.35:
+            a = atom()
+            return ["not", a] if rng.chance(0.2) else a
+        if r < 0.65:
+            return ["and", cond(d - 1), cond(d - 1)]
+        if r < 0.9:
+            return ["or", cond(d - 1), cond(d - 1)]
+        return ["not", cond(d - 1)]
+
+    c = cond(rng.randint(0, 2)) if rng.chance(0.9) else None
+    if c is not None and "z" not in cond_vars(c) and rng.chance(0.7):
+        c = ["and", c, ["cmp", rng.choice(list(OPS)), ["attr", ["var", "z"], rng.choice(["a", "b"])], iop()]]
+    case["cond"] = c
+    case["flat"] = {"z": src}
+    sel_names = rng.sample(names, rng.randint(1, min(2, len(names))))
+    if "z" not in sel_names and (c is None or "z" not in cond_vars(c)):
+        sel_names.append("z")          # the flattened collection must occur in the query
+    case["sels"] = [["var", nm] if typ[nm] != "P" or rng.chance(0.8) else ["attr", ["var", nm], "a"] for nm in sel_names]
+    return case
+
+
+def _py_val(objs_by_id, e, env):
+    k = e[0]
+    if k == "lit":
+        return e[1]
+    if k == "var":
+        return env[e[1]]
+    v = _py_val(objs_by_id, e[1], env)
+    o = objs_by_id[v] if isinstance(v, int) and v in objs_by_id and e[2] in ("a", "b", "child", "kids", "items") else v
+    return o[e[2]]
+
+
+def _py_holds(objs_by_id, c, env) -> bool:
+    """truth of a condition whose variables all range over P objects (ids) -- used by the GENERATOR only, to keep
+    sub-queries non-empty; never as an oracle"""
+    k = c[0]
+    if k == "cmp":
+        l, r = _py_val(objs_by_id, c[2], env), _py_val(objs_by_id, c[3], env)
+        return {"==": l == r, "!=": l != r, "<": l < r, "<=": l <= r, ">": l > r, ">=": l >= r}[c[1]]
+    if k == "contains":
+        return _py_val(objs_by_id, c[2], env) in _py_val(objs_by_id, c[1], env)
+    if k == "and":
+        return _py_holds(objs_by_id, c[1], env) and _py_holds(objs_by_id, c[2], env)
+    if k == "or":
+        return _py_holds(objs_by_id, c[1], env) or _py_holds(objs_by_id, c[2], env)
+    if k == "not":
+        return not _py_holds(objs_by_id, c[1], env)
+    raise ValueError(k)
+
+
+def gen_subq_case(rng: Rng) -> dict:
+    """a query that uses a nested sub-query z = an(entity(z0, c_z)) like a variable (operand of comparisons, selected).
+    No Coq model of nested quantifiers as operands: compared implementation vs the first-order Spec of [spec_case]."""
+    n = rng.randint(1, 4)
+    objs = [{"id": i, "cls": "P", "key": i, "a": rng.randint(0, 2), "b": rng.randint(0, 2),
+             "items": [rng.randint(0, 2) for _ in range(rng.randint(0, 2))],
+             "kids": [rng.randint(1, n) for _ in range(rng.randint(0, 2))], "child": rng.randint(1, n)}
+            for i in range(1, n + 1)]
+    ids = [o["id"] for o in objs]
+    case: Dict[str, Any] = {"objs": objs, "vars": {"x": "P"}, "doms": {"x": rng.sample(ids, rng.randint(1, n))}}
+    if rng.chance(0.3):
+        case["vars"]["y"], case["doms"]["y"] = "int", list(dict.fromkeys(rng.randint(0, 2) for _ in range(rng.randint(1, 3))))
+    typ = dict(case["vars"], z="P")
+
+    def iop(names, allow_lit=True):
+        if allow_lit and rng.chance(0.3):
+            return ["lit", rng.randint(0, 2)]
+        nm = rng.choice(names)
+        if typ[nm] == "int":
+            return ["var", nm]
+        return ["attr", ["var", nm], rng.choice(["a", "b"])]
+
+    def atom(names):
+        pv = [nm for nm in names if typ[nm] == "P"]
+        r = rng.random()
+        if r < 0.2 and pv:
+            return ["cmp", rng.choice(["==", "!="]), ["var", rng.choice(pv)], ["var", rng.choice(pv)] if rng.chance(0.6) else ["attr", ["var", rng.choice(pv)], "child"]]
+        if r < 0.3 and pv:
+            return ["contains", ["attr", ["var", rng.choice(pv)], "kids"], ["var", rng.choice(pv)]]
+        return ["cmp", rng.choice(list(OPS)), iop(names, False), iop(names)]
+
+    def cond(names, d):
+        r = rng.random()
+        if d <= 0 or r < 0.4:
+            a = atom(names)
+            return ["not", a] if rng.chance(0.2) else a
+        if r < 0.7:
+            return ["and", cond(names, d - 1), cond(names, d - 1)]
+        if r < 0.92:
+            return ["or", cond(names, d - 1), cond(names, d - 1)]
+        return ["not", cond(names, d - 1)]
+
+    zc = cond(["z"], rng.randint(0, 1)) if rng.chance(0.85) else None
+    zdom = rng.sample(ids, rng.randint(1, n))
+    by_id = {o["id"]: o for o in objs}
+    if zc is not None and not any(_py_holds(by_id, zc, {"z": i}) for i in zdom):
+        # a sub-query without answers is a variable over an empty domain: that is finding class K_emptydom (C01-h),
+        # covered by the main stream; here the sub-query always has an answer
+        zc = None
+    case["sub"] = {"z": {"type": "P", "dom": zdom, "cond": zc}}
+    names = list(case["vars"]) + ["z"]
+    c = cond(names, rng.randint(0, 2)) if rng.chance(0.9) else None
+    if c is not None and "z" not in cond_vars(c) and rng.chance(0.8):
+        c = ["and", c, ["cmp", rng.choice(list(OPS)), ["attr", ["var", "z"], rng.choice(["a", "b"])], iop(names)]]
+    case["cond"] = c
+    sel_names = rng.sample(names, rng.randint(1, min(2, len(names))))
+    if "z" not in sel_names and (c is None or "z" not in cond_vars(c)):
+        sel_names.append("z")
+    case["sels"] = [["var", nm] if typ[nm] != "P" or rng.chance(0.8) else ["attr", ["var", nm], "a"] for nm in sel_names]
+    return case
+
+
 def gen_case(rng: Rng, profile: str = "c01", extras: bool = False) -> dict:
     """profile c01: everything; c02: biased to the conjunctive / else-if fragment with duplicate-free domains"""
+    if profile == "flat":
+        return gen_flat_case(rng)
+    if profile == "subq":
+        return gen_subq_case(rng)
     if profile == "quant":
         r0 = rng.random()
         if r0 < 0.12:
